@@ -38,6 +38,7 @@ func Main(args []string) error {
 	asMB := fs.Int("as", 0, "(child) RLIMIT_AS in MiB")
 	memMB := fs.Int("mem", 0, "(child) heap watchdog in MiB")
 	only := fs.String("only", "", "run only requests whose URL matches this regexp (debugging)")
+	fast := fs.String("fastsites", "", "(child) call sites already confirmed as non-terminating")
 	_ = fs.Parse(args)
 	repo := os.Getenv("VERIF_REPO")
 	if repo == "" {
@@ -45,6 +46,11 @@ func Main(args []string) error {
 	}
 	if *mode == "child" {
 		memLimitMB = *memMB
+		for _, s := range strings.Split(*fast, ",") {
+			if s != "" {
+				fastSites[s] = true
+			}
+		}
 		return childMain(*jobsFile, *bound, repo, *tmp, *base, *asMB)
 	}
 	if *work == "" {
@@ -75,10 +81,8 @@ type parent struct {
 	nConfirm      int
 	nInconclusive int
 	unattributed  int
-	fast          bool // a spinning call site has been confirmed: first-stage bound is shortened
+	fastSites     []string // call sites confirmed (twice) as non-terminating: children stop waiting early there
 }
-
-const fastBoundMS = 300
 
 func (p *parent) run(genFile, outFile string, workers, reps1, reps2 int, only string) error {
 	self, err := os.Executable()
@@ -270,11 +274,10 @@ func crashInfo(stderr string) (msg, site, top string) {
 func (p *parent) runBatch(self string, batch []job, boundMS, memMB, asMB int, confirming bool) error {
 	rest := batch
 	for len(rest) > 0 {
+		fast := ""
 		if !confirming {
 			p.mu.Lock()
-			if p.fast {
-				boundMS = min(boundMS, fastBoundMS)
-			}
+			fast = strings.Join(p.fastSites, ",")
 			p.mu.Unlock()
 		}
 		p.mu.Lock()
@@ -299,7 +302,7 @@ func (p *parent) runBatch(self string, batch []job, boundMS, memMB, asMB int, co
 		bw.Flush()
 		f.Close()
 		cmd := exec.Command(self, "-mode", "child", "-jobs", jf, "-bound", fmt.Sprint(boundMS), "-tmp", filepath.Join(dir, "tmp"),
-			"-base", fmt.Sprint(p.baseMS), "-mem", fmt.Sprint(memMB), "-as", fmt.Sprint(asMB))
+			"-base", fmt.Sprint(p.baseMS), "-mem", fmt.Sprint(memMB), "-as", fmt.Sprint(asMB), "-fastsites", fast)
 		cmd.Env = append(os.Environ(), "VERIF_REPO="+p.repo, "GOTRACEBACK=all")
 		errFile, err := os.Create(filepath.Join(dir, "stderr.txt"))
 		if err != nil {
@@ -448,8 +451,8 @@ func (p *parent) resolve(id int, neighbors []int) error {
 	}
 	if o.Kind == "timeout" || o.Kind == "fatal" {
 		p.confirmedBad[o.Kind+"@"+o.Site]++
-		if o.Kind == "timeout" && o.Site != "" && p.confirmedBad[o.Kind+"@"+o.Site] >= 2 {
-			p.fast = true
+		if o.Kind == "timeout" && o.Site != "" && p.confirmedBad[o.Kind+"@"+o.Site] == 2 {
+			p.fastSites = append(p.fastSites, o.Site)
 		}
 		p.mu.Unlock()
 		return nil
